@@ -8,4 +8,7 @@ CONSTANTS
   MaxNodes = 1
   MaxStack = 1
   BugOptionalDropsNone = FALSE
+  FixedStar = FALSE
+  FixedFinalInString = FALSE
+  FixedNestedLiteral = FALSE
 CHECK_DEADLOCK FALSE
